@@ -62,7 +62,10 @@ Record SI (s : sys) (gl : ledger) (a : Vote.sys) : Prop := {
        mi = 0 \/ exists fol, In (p, i, AER (term (nd_of s i)) true fol mi) (pool s);
   s_aer : forall v dst t b fol mi, In (v, dst, AER t b fol mi) (pool s) -> v <> dst;
   (* compaction only ever drops committed entries *)
-  s_base : forall i, i < n_nodes cfg -> base (nd_of s i) <= commit (nd_of s i) /\ fin (nd_of s i) <= commit (nd_of s i)
+  s_base : forall i, i < n_nodes cfg -> base (nd_of s i) <= commit (nd_of s i) /\ fin (nd_of s i) <= commit (nd_of s i);
+  (* ... and never the whole log: the implementation's array (the log without its first `base` entries) is
+     empty only when the log is *)
+  s_arr : forall i, i < n_nodes cfg -> base (nd_of s i) < llen (log (nd_of s i)) \/ base (nd_of s i) = 0
 }.
 
 (* ---------------- monotonicity ---------------- *)
@@ -194,9 +197,10 @@ Lemma si_upd s gl a gl' a' i x out :
      forall p mi, In (p, mi) (match_index ls) -> mi = 0 \/ exists fol, In (p, i, AER (term x) true fol mi) (pool s)) ->
   (forall d t b fol mi, In (d, AER t b fol mi) out -> i <> d) ->
   base x <= commit x /\ fin x <= commit x ->
+  (base x < llen (log x) \/ base x = 0) ->
   SI (upd_node s i x out) gl' a'.
 Proof.
-  intros [HR [HI [H8 [HM HC]]]] [S1 S2 S3 S4 S5] Hi Hl He H1 H2 H3 H4 H5.
+  intros [HR [HI [H8 [HM HC]]]] [S1 S2 S3 S4 S5 S6] Hi Hl He H1 H2 H3 H4 H5 H6.
   assert (Hp : forall e, In e (pool s) -> In e (pool (upd_node s i x out))).
   { intros e Hin. apply pool_upd. left. exact Hin. }
   constructor.
@@ -217,12 +221,13 @@ Proof.
     destruct Hin as [Hin|[d [m0 [Ho E]]]]; [eapply S4; eauto|].
     inversion E; subst. eapply H4; eauto.
   - intros j Hj. rewrite (nth_upd' s a) by assumption. destruct (N.eqb_spec j i) as [->|Hne]; [exact H5|apply S5; exact Hj].
+  - intros j Hj. rewrite (nth_upd' s a) by assumption. destruct (N.eqb_spec j i) as [->|Hne]; [exact H6|apply S6; exact Hj].
 Qed.
 
 Lemma si_stay s gl a gl' a' :
   SI s gl a -> incl (Vote.leaders a) (Vote.leaders a') -> gl_ext gl gl' -> SI s gl' a'.
 Proof.
-  intros [S1 S2 S3 S4 S5] Hl He. constructor; auto.
+  intros [S1 S2 S3 S4 S5 S6] Hl He. constructor; auto.
   - intros i Hi. apply (cov_mono s gl a s gl' a' (log (nd_of s i)) (log (nd_of s i)) _ (term (nd_of s i)) (term (nd_of s i))); auto;
       [apply firstn_all|lia].
   - intros src dst t ldr pi pt es lc Hin.
@@ -347,9 +352,13 @@ Lemma si_frame s gl a gl' a' i x out :
   SI (upd_node s i x out) gl' a'.
 Proof.
   intros HF HS Hi Hl He [Kc [Kl [Kt [Kr Kb]]]] Hnoae Haer.
-  pose proof HS as [S1 S2 S3 S4 S5].
+  pose proof HS as [S1 S2 S3 S4 S5 S6].
   assert (HB : base x <= commit x /\ fin x <= commit x).
   { destruct (S5 i Hi) as [B1 B2]. destruct Kb as [[Eb [Ef Ec]]|[Eb Ef]]; rewrite Eb, Ef; [rewrite Ec; auto|split; lia]. }
+  assert (HA : base x < llen (log x) \/ base x = 0).
+  { destruct Kb as [[Eb _]|[Eb _]]; [|right; exact Eb]. rewrite Eb.
+    assert (length (log (nd_of s i)) <= length (log x))%nat by (rewrite <- Kl at 1; rewrite firstn_length; lia).
+    destruct (S6 i Hi) as [B|B]; [left; unfold llen in *; lia|right; exact B]. }
   apply (si_upd s gl a gl' a' i x out); auto.
   - destruct Kc as [Kc|Kc]; rewrite Kc; [|left; reflexivity].
     apply (cov_same s gl a (log (nd_of s i)) (log x) _ (term (nd_of s i)) (term x)); auto.
@@ -366,9 +375,11 @@ Lemma si_leader s gl a gl' a' i y :
   base y = base (nd_of s i) -> fin y = fin (nd_of s i) ->
   SI (upd_node s i (become_leader cfg i y) []) gl' a'.
 Proof.
-  intros HF HS Hi Hl He El Ec Et Eb Ef. pose proof HS as [S1 S2 S3 S4 S5].
+  intros HF HS Hi Hl He El Ec Et Eb Ef. pose proof HS as [S1 S2 S3 S4 S5 S6].
   assert (HB : base (become_leader cfg i y) <= commit (become_leader cfg i y) /\ fin (become_leader cfg i y) <= commit (become_leader cfg i y)).
   { unfold become_leader. cbn [base fin commit]. rewrite Eb, Ef, Ec. apply S5. exact Hi. }
+  assert (HA : base (become_leader cfg i y) < llen (log (become_leader cfg i y)) \/ base (become_leader cfg i y) = 0).
+  { unfold become_leader. cbn [base log]. rewrite Eb, El. apply S6. exact Hi. }
   apply (si_upd s gl a gl' a' i _ []); auto.
   all: try (intros ? ? ? ? ? ? ? []; fail).
   all: try (intros ? ? ? ? ? []; fail).
@@ -384,7 +395,7 @@ Lemma si_hb s gl a gl' a' i :
   incl (Vote.leaders a) (Vote.leaders a') -> gl_ext gl gl' ->
   SI (upd_node s i (nd_of s i) (heartbeat_msgs cfg ru i (nd_of s i))) gl' a'.
 Proof.
-  intros HF HS Hi Hl He. pose proof HS as [S1 S2 S3 S4 S5]. pose proof HF as [HR [HI [H8 [HM HC]]]].
+  intros HF HS Hi Hl He. pose proof HS as [S1 S2 S3 S4 S5 S6]. pose proof HF as [HR [HI [H8 [HM HC]]]].
   assert (Hhb : forall d m0, In (d, m0) (heartbeat_msgs cfg ru i (nd_of s i)) ->
             rl (nd_of s i) = Leader /\
             exists pi pt es, m0 = AE (term (nd_of s i)) i pi pt es (commit (nd_of s i))).
@@ -412,7 +423,7 @@ Lemma si_ae s gl a gl' a' i src t ldr pi pt es lc x mi :
   SI (upd_node s i x [(src, AER t true i mi)]) gl' a'.
 Proof.
   intros HF HS Hi Hl He Hin Hok Hrl Hterm Hge Hlog Hbx Hfx Hcom.
-  pose proof HS as [S1 S2 S3 S4 S5]. pose proof HF as [HR [HI [H8 [HM HC]]]].
+  pose proof HS as [S1 S2 S3 S4 S5 S6]. pose proof HF as [HR [HI [H8 [HM HC]]]].
   pose proof (comp_ok s gl a HF HS _ _ _ _ _ _ _ _ Hin Hi Hge) as Hcomp.
   destruct (lm_M1 _ _ _ _ HM _ _ _ _ _ _ _ _ Hin) as [Hld [Hseg [Hprev Hplen]]].
   pose proof (c_ae_src _ _ _ _ HC _ _ _ _ _ _ _ _ Hin) as Hsd.
@@ -451,6 +462,8 @@ Proof.
   { destruct (S5 i Hi) as [B1 B2]. rewrite Hbx, Hfx, Hcom.
     destruct (N.ltb_spec (commit (nd_of s i)) lc) as [Hlt|]; [|auto].
     destruct (commit_ok lc (commit (nd_of s i)) pi (last_new pi es) (llen (log x)) Hlt) as [C1 _]. split; lia. }
+  assert (HA : base x < llen (log x) \/ base x = 0).
+  { rewrite Hbx, Hlog. destruct (S6 i Hi) as [B|B]; [left; apply append_entries_len_base; exact B|right; exact B]. }
   apply (si_upd s gl a gl' a' i x _); auto.
   - rewrite Hterm, Hcom. destruct (N.ltb_spec (commit (nd_of s i)) lc) as [Hlt|Hge0]; [|exact Old].
     destruct (commit_ok lc (commit (nd_of s i)) pi (last_new pi es) (llen (log x)) Hlt) as [C1 C2].
@@ -485,7 +498,7 @@ Lemma si_aer s gl a gl' a' i src t fol mi ls :
   SI (upd_node s i (try_advance cfg ru y) []) gl' a'.
 Proof.
   intros HF HS Hi Hl He Hin Hr Ht Hls nd y.
-  pose proof HS as [S1 S2 S3 S4 S5]. pose proof HF as [HR [HI [H8 [HM HC]]]].
+  pose proof HS as [S1 S2 S3 S4 S5 S6]. pose proof HF as [HR [HI [H8 [HM HC]]]].
   destruct (S3 i ls Hi Hr Hls) as [Keys Back].
   destruct (R_ids _ _ _ HR _ _ _ Hin) as [Hsrc _].
   pose proof (S4 _ _ _ _ _ _ Hin) as Hne.
@@ -501,6 +514,8 @@ Proof.
   assert (HB : base (try_advance cfg ru y) <= commit (try_advance cfg ru y) /\ fin (try_advance cfg ru y) <= commit (try_advance cfg ru y)).
   { destruct (S5 i Hi) as [B1 B2]. fold nd in B1, B2. rewrite Xb, Xf.
     destruct Xc as [Xc|[ls0 [e0 [_ [_ [Hlt0 _]]]]]]; [rewrite Xc; cbn [y commit]; auto|cbn [y commit] in Hlt0; split; lia]. }
+  assert (HA : base (try_advance cfg ru y) < llen (log (try_advance cfg ru y)) \/ base (try_advance cfg ru y) = 0).
+  { rewrite Xb, Xl. cbn [y log]. apply S6. exact Hi. }
   apply (si_upd s gl a gl' a' i _ []); auto.
   all: try (intros ? ? ? ? ? ? ? []; fail).
   all: try (intros ? ? ? ? ? []; fail).
@@ -563,7 +578,7 @@ Theorem si_step s gl a o gl' a' :
 Proof.
   intros HF HS Hl He.
   assert (Stay : SI s gl' a') by (eapply si_stay; eauto).
-  pose proof HF as [HR [HI [H8 [HM HC]]]]. pose proof HS as [S1 S2 S3 S4 S5].
+  pose proof HF as [HR [HI [H8 [HM HC]]]]. pose proof HS as [S1 S2 S3 S4 S5 S6].
   destruct o as [i|i|i|i|i p ok|k ok|i|i ok|i h|i]; cbn [gstep].
   - (* GElect *)
     unfold valid_id. destruct (N.ltb_spec i (n_nodes cfg)) as [Hi|]; cbn [fst]; [|exact Stay].
@@ -698,6 +713,7 @@ Proof.
     + apply S1. exact Hi.
     + intros ls Hr Hls. apply (S3 i ls Hi Hr Hls).
     + destruct (S5 i Hi) as [B1 B2]. split; [exact B1|exact Hh].
+    + apply S6. exact Hi.
   - (* GCompact *)
     unfold valid_id. destruct (N.ltb_spec i (n_nodes cfg)) as [Hi|]; cbn [fst]; [|exact Stay].
     unfold compact. match goal with |- context [if ?c then _ else _] => destruct c eqn:Ec end.
@@ -711,6 +727,7 @@ Proof.
     + apply S1. exact Hi.
     + intros ls Hr Hls. apply (S3 i ls Hi Hr Hls).
     + destruct (S5 i Hi) as [B1 B2]. split; [lia|exact B2].
+    + left. rewrite !andb_true_iff in Ec. destruct Ec as [_ Ec]. apply N.ltb_lt. exact Ec.
 Qed.
 
 (* ---------------- monotonicity: terms never decrease; commit indexes only a crash resets ---------------- *)
@@ -855,6 +872,7 @@ Proof.
   - intros i ls Hi Hr. rewrite (init_node_of cfg) in Hr. discriminate.
   - intros ? ? ? ? ? ? [].
   - intros i Hi. rewrite (init_node_of cfg). cbn. split; lia.
+  - intros i Hi. rewrite (init_node_of cfg). right. reflexivity.
 Qed.
 
 Lemma sfi_init : exists a, SFI (init_sys cfg) (fun _ => []) a.
@@ -992,6 +1010,18 @@ Proof.
   intros ops o i Hi. destruct (sfi_run ops) as [gl [a [[HR _] _]]].
   pose proof (mono_step _ a o i HR Hi) as [_ B].
   unfold grun in *. rewrite fold_left_app. cbn [fold_left]. exact B.
+Qed.
+
+(* the implementation's log array (the log without its first `base` entries) is empty only when the log is, so
+   reading the last index/term off the array (handle_request_vote, start_election) is reading it off the log *)
+Theorem array_last_is_log_last : forall ops i, i < n_nodes cfg ->
+  let nd := nd_of (grun cfg ru ops) i in
+  last_info (skipn (N.to_nat (base nd)) (log nd)) = last_info (log nd).
+Proof.
+  intros ops i Hi nd. destruct (sfi_run ops) as [gl [a [_ HS]]].
+  destruct (s_arr _ _ _ HS i Hi) as [B|B]; fold nd in B.
+  - apply last_info_skipn. unfold llen in B. lia.
+  - rewrite B. reflexivity.
 Qed.
 
 (* what a node has compacted away it had committed, and it still holds at least one entry *)
